@@ -16,6 +16,15 @@ Section flat_proofs.
   Lemma sc_on_collector : sc_on v = true -> has_collector v = true.
   Proof. destruct v as [| |[|]]; simpl; intros H; congruence. Qed.
 
+  Lemma final_dec c : {final c} + {~ final c}.
+  Proof.
+    unfold final.
+    destruct (fd_done c); [|right; intros (H & _); discriminate H].
+    destruct (col_done c); [|right; intros (_ & H & _); discriminate H].
+    destruct (sp_done c); [|right; intros (_ & _ & H & _); discriminate H].
+    destruct (Nat.eq_dec (workers c) 0) as [H|H]; [left; auto|right; intros (_ & _ & _ & H'); auto].
+  Qed.
+
   Lemma inv_init : Inv init.
   Proof.
     split; unfold workers, wlive; simpl; try lia; try discriminate; try congruence; auto.
@@ -56,6 +65,677 @@ Section flat_proofs.
     all: try solve [use_hyps; try lia; try congruence; auto].
     all: try solve [fin_tac].
     all: destruct (err c) as [[]|] eqn:Eerr; try solve [fin_tac].
-    Show.
-  Abort.
+  Qed.
+
+  Lemma inv_steps c tr c' : Inv c -> steps c tr c' -> Inv c'.
+  Proof.
+    intros HI Hst. induction Hst as [c|c l c' tr c'' Hs Hst IH]; [exact HI|].
+    apply IH. eapply inv_step; [exact HI|exact Hs].
+  Qed.
+
+  (* the invariant holds in every reachable state, for every sizing (also D = 0) *)
+  Theorem flat_inv_reachable c : reachable c -> Inv c.
+  Proof. intros [tr Htr]. eapply inv_steps; [apply inv_init|exact Htr]. Qed.
+
+  (* ---------------------------------------------------------------- termination *)
+
+  Lemma step_decreases l c c' : step l c c' -> measure c' < measure c.
+  Proof.
+    intros Hs.
+    destruct Hs; try destruct k; unfold Sched.measure, raise, b2n; simpl in *;
+      repeat match goal with
+      | H : ?x = true |- context [if ?x then _ else _] => rewrite H
+      | H : ?x = false |- context [if ?x then _ else _] => rewrite H
+      end;
+      repeat match goal with |- context [if ?x then _ else _] => destruct x end; lia.
+  Qed.
+
+  Lemma steps_measure c tr c' : steps c tr c' -> length tr + measure c' <= measure c.
+  Proof.
+    intros Hst. induction Hst as [c|c l c' tr c'' Hs Hst IH]; simpl; [lia|].
+    apply step_decreases in Hs. lia.
+  Qed.
+
+  Lemma measure_init : measure init = 5 * N + 3 + (if has_collector v then 1 else 0).
+  Proof. unfold Sched.measure, b2n. simpl. destruct (has_collector v); simpl; lia. Qed.
+
+  (* every step strictly decreases the measure; hence every schedule from init, whatever the
+     sizing and the variant, has at most 5N+4 steps *)
+  Theorem flat_terminates :
+    (forall l c c', step l c c' -> measure c' < measure c) /\
+    (forall tr c, steps init tr c -> length tr + measure c <= measure init) /\
+    (forall tr c, steps init tr c -> length tr <= 5 * N + 4).
+  Proof.
+    split; [exact step_decreases|]. split.
+    - intros tr c Hst. apply steps_measure. exact Hst.
+    - intros tr c Hst. apply steps_measure in Hst. rewrite measure_init in Hst.
+      destruct (has_collector v); lia.
+  Qed.
+
+  (* ---------------------------------------------------------------- progress *)
+
+  Ltac ok_step tac :=
+    do 2 eexists; split; [tac | let Hx := fresh "Hx" in intros [Hx|Hx]; discriminate Hx].
+
+  Lemma spawner_progress c :
+    1 <= D -> Inv c -> sp_done c = false -> wlive (wD c) = 0 ->
+    exists l c', step l c c' /\ ~ env_label l.
+  Proof.
+    intros HD HI Hspd Hw. destruct HI.
+    destruct (Nat.eq_dec (sp c) N) as [Heq|Hne].
+    - ok_step ltac:(eapply S_sp_stop; [exact Hspd|left; exact Heq]).
+    - ok_step ltac:(eapply (S_spawn N D S v Ded); simpl; [exact Hspd|lia|lia]).
+  Qed.
+
+  (* the feeder is alive and no worker is busy or holds a result *)
+  Lemma feeder_progress c :
+    1 <= D -> Inv c -> fd_done c = false ->
+    busy (wD c) = 0 -> busy (wS c) = 0 -> hold (wD c) = 0 -> hold (wS c) = 0 ->
+    exists l c', step l c c' /\ ~ env_label l.
+  Proof.
+    intros HD HI Hfd HbD HbS HhD HhS.
+    destruct (q c) as [|n] eqn:Eq.
+    { ok_step ltac:(eapply S_feed_close; [exact Hfd|exact Eq]). }
+    destruct (idle (wD c)) as [|m] eqn:EiD.
+    2:{ ok_step ltac:(eapply (S_take N D S v Ded); simpl; [exact Hfd|exact Eq|exact EiD]). }
+    destruct (idle (wS c)) as [|m] eqn:EiS.
+    2:{ ok_step ltac:(eapply (S_take N D S v Shr); simpl; [exact Hfd|exact Eq|exact EiS]). }
+    destruct (cancelled c) eqn:Eca.
+    { ok_step ltac:(eapply S_feed_cancel; [exact Hfd|exact Eq|exact Eca]). }
+    (* no worker at all, not cancelled: nobody has been spawned yet, spawn a dedicated one *)
+    assert (Hcl : closed c = false).
+    { destruct (closed c) eqn:Ecl; [|reflexivity].
+      rewrite (I_closed_fd _ _ _ _ _ HI Ecl) in Hfd. discriminate Hfd. }
+    assert (Hw : workers c = sp c) by (apply (I_open _ _ _ _ _ HI); assumption).
+    assert (Hsum := I_sum _ _ _ _ _ HI).
+    unfold workers, wlive in Hw.
+    destruct (sp_done c) eqn:Espd.
+    { destruct (I_spd _ _ _ _ _ HI Espd) as [Hx|[Hx|Hx]].
+      - lia.
+      - destruct (I_ready _ _ _ _ _ HI Hx) as [Hy _]. lia.
+      - congruence. }
+    apply spawner_progress; try assumption. unfold wlive. lia.
+  Qed.
+
+  (* With at least one dedicated token, every reachable non-final state has an enabled step
+     that needs neither the shared pool nor a cancellation from outside. *)
+  Theorem flat_progress c :
+    1 <= D -> reachable c -> ~ final c -> exists l c', step l c c' /\ ~ env_label l.
+  Proof.
+    intros HD Hr Hnf. apply flat_inv_reachable in Hr. rename Hr into HI.
+    assert (Hsum := I_sum _ _ _ _ _ HI).
+    destruct (has_collector v) eqn:Hv.
+    - (* Commit, Status *)
+      destruct (busy (wD c)) as [|m] eqn:EbD.
+      2:{ ok_step ltac:(eapply (S_finish N D S v Ded); simpl; [exact Hv|exact EbD]). }
+      destruct (busy (wS c)) as [|m] eqn:EbS.
+      2:{ ok_step ltac:(eapply (S_finish N D S v Shr); simpl; [exact Hv|exact EbS]). }
+      (* a worker holding a result delivers it, or abandons it after cancellation *)
+      assert (Hhold : forall k m, hold (w k c) = 1 + m -> exists l c', step l c c' /\ ~ env_label l).
+      { intros k m Hk.
+        assert (Hle : hold (w k c) <= hold (wD c) + hold (wS c)) by (destruct k; simpl; lia).
+        destruct (col_done c) eqn:Ecd.
+        - destruct (I_cd _ _ _ _ _ HI Ecd Hv) as [Hrd|Her].
+          + destruct (I_ready _ _ _ _ _ HI Hrd) as [Hx _]. lia.
+          + assert (Hca := I_err_canc _ _ _ _ _ HI Her).
+            ok_step ltac:(eapply (S_drop N D S v k); [exact Hk|exact Hca]).
+        - ok_step ltac:(eapply (S_deliver N D S v k); [exact Hk|exact Ecd|lia]). }
+      destruct (hold (wD c)) as [|m] eqn:EhD; [|apply (Hhold Ded m EhD)].
+      destruct (hold (wS c)) as [|m] eqn:EhS; [|apply (Hhold Shr m EhS)].
+      clear Hhold.
+      destruct (fd_done c) eqn:Efd.
+      2:{ apply feeder_progress; assumption. }
+      assert (Hcl : closed c = true).
+      { destruct (closed c) eqn:Ecl; [reflexivity|].
+        destruct (I_fd_open _ _ _ _ _ HI Efd Ecl) as [Hx _]. congruence. }
+      destruct (idle (wD c)) as [|m] eqn:EiD.
+      2:{ ok_step ltac:(eapply (S_exit N D S v Ded); simpl; [exact EiD|exact Hcl]). }
+      destruct (idle (wS c)) as [|m] eqn:EiS.
+      2:{ ok_step ltac:(eapply (S_exit N D S v Shr); simpl; [exact EiS|exact Hcl]). }
+      destruct (col_done c) eqn:Ecd.
+      2:{ destruct (Nat.eq_dec (col c) N) as [Heq|Hne].
+          { ok_step ltac:(eapply S_collected; [exact Ecd|exact Heq]). }
+          assert (Her : err c <> None).
+          { destruct (I_fd_q _ _ _ _ _ HI Efd) as [Hq|Her]; [|exact Her].
+            intros Hnone. destruct (I_clean _ _ _ _ _ HI Hnone) as [Hdr _]. lia. }
+          assert (Hca := I_err_canc _ _ _ _ _ HI Her).
+          ok_step ltac:(eapply S_col_cancel; [exact Ecd|lia|exact Hca]). }
+      destruct (sp_done c) eqn:Espd.
+      2:{ apply spawner_progress; try assumption. unfold wlive. lia. }
+      exfalso. apply Hnf. unfold final, workers, wlive. repeat split; try assumption. lia.
+    - (* Checkout *)
+      destruct (I_nocol _ _ _ _ _ HI Hv) as (Hcd & _ & HhD & HhS).
+      destruct (busy (wD c)) as [|m] eqn:EbD.
+      2:{ ok_step ltac:(eapply (S_finish_co N D S v Ded); simpl; [exact Hv|exact EbD]). }
+      destruct (busy (wS c)) as [|m] eqn:EbS.
+      2:{ ok_step ltac:(eapply (S_finish_co N D S v Shr); simpl; [exact Hv|exact EbS]). }
+      destruct (fd_done c) eqn:Efd.
+      2:{ apply feeder_progress; assumption. }
+      assert (Hidle : forall k m, idle (w k c) = 1 + m -> exists l c', step l c c' /\ ~ env_label l).
+      { intros k m Hk. destruct (closed c) eqn:Ecl.
+        - ok_step ltac:(eapply (S_exit N D S v k); [exact Hk|exact Ecl]).
+        - destruct (I_fd_open _ _ _ _ _ HI Efd Ecl) as [_ Hca].
+          ok_step ltac:(eapply (S_exit_cancel N D S v k); [exact Hv|exact Hk|exact Hca]). }
+      destruct (idle (wD c)) as [|m] eqn:EiD; [|apply (Hidle Ded m EiD)].
+      destruct (idle (wS c)) as [|m] eqn:EiS; [|apply (Hidle Shr m EiS)].
+      destruct (sp_done c) eqn:Espd.
+      2:{ apply spawner_progress; try assumption. unfold wlive. lia. }
+      exfalso. apply Hnf. unfold final, workers, wlive. repeat split; try assumption. lia.
+  Qed.
+
+  (* Consequence of progress and termination: from every reachable state the instance can
+     run to a final state using internal steps only (no shared token, no outside cancel). *)
+  Definition internal (l : label) : Prop := ~ env_label l.
+
+  Theorem flat_can_finish c :
+    1 <= D -> reachable c ->
+    exists tr c', steps c tr c' /\ final c' /\ Forall internal tr.
+  Proof.
+    intros HD. remember (measure c) as n eqn:Hn. revert c Hn.
+    induction n as [n IH] using lt_wf_ind. intros c Hn Hr.
+    destruct (final_dec c) as [Hf|Hnf].
+    - exists [], c. split; [constructor|]. split; [exact Hf|constructor].
+    - destruct (flat_progress c HD Hr Hnf) as (l & c1 & Hs & Hl).
+      assert (Hlt := step_decreases _ _ _ Hs).
+      destruct (IH (measure c1) ltac:(lia) c1 eq_refl (reachable_step _ _ _ _ _ _ _ Hr Hs))
+        as (tr & c2 & Hst & Hf & Hall).
+      exists (l :: tr), c2. split; [eapply steps_cons; [exact Hs|exact Hst]|].
+      split; [exact Hf|]. constructor; [exact Hl|exact Hall].
+  Qed.
+
+  (* ---------------------------------------------------------------- join, tokens *)
+
+  (* errGroup.Wait returned: no goroutine of the instance is alive, every token it took from
+     its dedicated channel and from the shared pool has been given back *)
+  Theorem flat_joined c :
+    final c ->
+    workers c = 0 /\ wlive (wD c) = 0 /\ wlive (wS c) = 0 /\
+    fd_done c = true /\ col_done c = true /\ sp_done c = true.
+  Proof.
+    intros (Hfd & Hcd & Hspd & Hw). unfold workers in *.
+    repeat split; try assumption; lia.
+  Qed.
+
+  Theorem flat_tokens c : reachable c -> wlive (wD c) <= D /\ wlive (wS c) <= S.
+  Proof.
+    intros Hr. apply flat_inv_reachable in Hr.
+    split; [exact (I_ded _ _ _ _ _ Hr)|exact (I_shr _ _ _ _ _ Hr)].
+  Qed.
+
+  (* ---------------------------------------------------------------- result *)
+
+  (* Wait returns nil: every one of the N entries was handed out, its action succeeded, and
+     (Commit, Status) its result reached the collector, which closed the ready channel;
+     no action failed, nothing was abandoned, no short circuit.
+     Wait returns an error: an entry error only if some action failed, the parent's
+     cancellation only if the parent did cancel, the short-circuit sentinel only in
+     Status with the flag on, after a short_circuit step.
+     NB an ext_cancel may go unobserved (select takes any ready case), so [xc c] may be true
+     in an error-free final state: see [ex_cancel_unobserved] below. *)
+  Theorem flat_result c :
+    reachable c -> final c ->
+    (err c = None ->
+       col c = N /\ q c = 0 /\ nfin c = N /\ dropped c = 0 /\ nfail c = 0 /\ nabort c = 0 /\
+       scd c = false /\ (has_collector v = true -> ready c = true)) /\
+    (err c = Some EntryError -> 1 <= nfail c) /\
+    (err c = Some ParentCancelled -> xc c = true) /\
+    (err c = Some ShortCircuit -> v = Status true /\ scd c = true /\ 1 <= col c) /\
+    (1 <= nfail c -> err c <> None) /\
+    (1 <= dropped c -> err c <> None).
+  Proof.
+    intros Hr (Hfd & Hcd & Hspd & Hw). apply flat_inv_reachable in Hr. rename Hr into HI.
+    assert (Hsum := I_sum _ _ _ _ _ HI). assert (Htk := I_taken _ _ _ _ _ HI).
+    unfold workers, wlive in Hw.
+    split; [|split; [|split; [|split; [|split]]]].
+    - intros Hnone. destruct (I_clean _ _ _ _ _ HI Hnone) as (Hdr & Hnf & Hna & Hsc).
+      assert (Hq : q c = 0).
+      { destruct (I_fd_q _ _ _ _ _ HI Hfd) as [Hq|Hq]; [exact Hq|congruence]. }
+      repeat split; try assumption; try lia.
+      intros Hv. destruct (I_cd _ _ _ _ _ HI Hcd Hv) as [Hrd|Her]; [exact Hrd|congruence].
+    - apply (I_entry _ _ _ _ _ HI).
+    - apply (I_parent _ _ _ _ _ HI).
+    - intros Hsc. assert (Hscd := I_short _ _ _ _ _ HI Hsc).
+      assert (Hon := I_scd _ _ _ _ _ HI Hscd).
+      destruct (I_sc_col _ _ _ _ _ HI Hscd) as [Hcol _].
+      split; [|split; assumption].
+      destruct v as [| |[|]]; simpl in Hon; try discriminate Hon. reflexivity.
+    - intros Hge Hnone. destruct (I_clean _ _ _ _ _ HI Hnone) as (_ & Hnf & _). lia.
+    - intros Hge Hnone. destruct (I_clean _ _ _ _ _ HI Hnone) as (Hdr & _). lia.
+  Qed.
+
+  (* what the caller sees *)
+  Corollary flat_returned_nil c :
+    reachable c -> final c -> returned c = None ->
+    (err c = None /\ col c = N /\ nfail c = 0 /\ dropped c = 0) \/
+    (err c = Some ShortCircuit /\ v = Status true /\ scd c = true).
+  Proof.
+    intros Hr Hf Hret. destruct (flat_result c Hr Hf) as (H1 & _ & _ & H4 & _).
+    unfold returned in Hret. destruct (err c) as [[]|] eqn:Eerr; try discriminate Hret.
+    - right. destruct (H4 eq_refl) as (Hv & Hs & _). auto.
+    - left. destruct (H1 eq_refl) as (Hc & _ & _ & Hd & Hn & _). auto.
+  Qed.
+
+  (* ---------------------------------------------------------------- D = 0 deadlocks *)
+
+  (* Without a dedicated token the instance is stuck in its initial state as long as the
+     shared pool grants nothing (the deadlock described at cache.go:44-47: the shared tokens
+     are all held by ancestors waiting for this very instance). *)
+  Theorem flat_stuck_without_dedicated :
+    D = 0 -> 1 <= N ->
+    exists c, reachable c /\ ~ final c /\ forall l c', step l c c' -> env_label l.
+  Proof.
+    intros HD HN. exists init. split; [apply reachable_init|]. split.
+    - intros (H & _). discriminate H.
+    - intros l c' Hs. unfold env_label.
+      inversion Hs; subst; try destruct k; simpl in *; try discriminate; try lia; auto.
+  Qed.
 End flat_proofs.
+
+(* ============================================================================ tree level *)
+
+Section tree_ind.
+  Variable P : tree -> Prop.
+  Hypothesis Hleaf : forall ok, P (Leaf ok).
+  Hypothesis Hnode : forall ch, Forall P ch -> P (Node ch).
+
+  Fixpoint tree_ind' (t : tree) : P t :=
+    match t with
+    | Leaf ok => Hleaf ok
+    | Node ch =>
+      Hnode ch
+        ((fix go (l : list tree) : Forall P l :=
+            match l with
+            | [] => Forall_nil P
+            | t' :: l' => Forall_cons t' (tree_ind' t') (go l')
+            end) ch)
+    end.
+End tree_ind.
+
+Lemma count_repeat_same r n : count r (repeat r n) = n.
+Proof. induction n as [|n IH]; simpl; [reflexivity|]. rewrite IH. destruct r; reflexivity. Qed.
+
+Lemma count_repeat_other r r' n : result_eqb r r' = false -> count r (repeat r' n) = 0.
+Proof. intros H. induction n as [|n IH]; simpl; [reflexivity|]. rewrite H, IH. reflexivity. Qed.
+
+Lemma count_app r l1 l2 : count r (l1 ++ l2) = count r l1 + count r l2.
+Proof. induction l1 as [|x l1 IH]; simpl; [reflexivity|]. rewrite IH. lia. Qed.
+
+Lemma forallb_firstn_false (f : tree -> bool) k l :
+  forallb f (firstn k l) = false -> forallb f l = false.
+Proof.
+  revert l. induction k as [|k IH]; intros l H; simpl in H; [discriminate H|].
+  destruct l as [|x l]; simpl in *; [discriminate H|].
+  destruct (f x); simpl in *; [apply IH; exact H|reflexivity].
+Qed.
+
+Lemma firstn_app_one (A : Type) (pre : list A) t post :
+  firstn (length pre + 1) (pre ++ t :: post) = pre ++ [t].
+Proof. induction pre as [|x pre IH]; simpl; [reflexivity|]. rewrite IH. reflexivity. Qed.
+
+Section tree_proofs.
+  Context (D S : nat) (v : variant).
+
+  Notation exec := (exec D S v).
+  Notation exec_children := (exec_children D S v).
+
+  Scheme exec_min := Minimality for Sched.exec Sort Prop
+    with exec_children_min := Minimality for Sched.exec_children Sort Prop.
+  Combined Scheme exec_mutind from exec_min, exec_children_min.
+
+  (* ---------------------------------------------------------------- soundness *)
+
+  Definition sound_one (t : tree) (xcin : bool) (r : result) : Prop :=
+    (r = RCancelled -> xcin = true) /\
+    (r = RFail -> all_ok t = false) /\
+    (sc_on v = false -> r = ROk -> all_ok t = true).
+
+  Definition sound_list (cc : bool) (ts : list tree) (rs : list result) : Prop :=
+    (1 <= count RFail rs -> forallb all_ok ts = false) /\
+    (sc_on v = false -> count RFail rs = 0 -> count RCancelled rs = 0 ->
+     forallb all_ok ts = true).
+
+  Lemma exec_sound_mut :
+    (forall t xcin r, exec t xcin r -> sound_one t xcin r) /\
+    (forall cc ts rs, exec_children cc ts rs -> sound_list cc ts rs).
+  Proof.
+    apply exec_mutind.
+    - intros ok xcin. unfold sound_one. destruct ok; simpl; repeat split; congruence.
+    - intros ch xcin tr c outs Hsteps Hfinal Hxc Hch [IH1 IH2] Hfin Hfail Habort.
+      assert (Hr : reachable (length ch) D S v c) by (exists tr; exact Hsteps).
+      destruct (flat_result _ _ _ _ c Hr Hfinal) as (R1 & R2 & R3 & R4 & _).
+      unfold sound_one, returned.
+      destruct (err c) as [[]|] eqn:Eerr; simpl.
+      + (* an entry error *)
+        split; [congruence|]. split; [|congruence]. intros _.
+        apply (forallb_firstn_false all_ok (length ch - q c)). apply IH1.
+        specialize (R2 eq_refl). lia.
+      + (* cancelled from above *)
+        split; [|split; congruence]. intros _.
+        destruct xcin; [reflexivity|]. rewrite (Hxc eq_refl) in R3.
+        specialize (R3 eq_refl). discriminate R3.
+      + (* short circuit: only Status true *)
+        split; [congruence|]. split; [congruence|]. intros Hoff _.
+        destruct (R4 eq_refl) as (Hv & _). rewrite Hv in Hoff. discriminate Hoff.
+      + (* no error *)
+        split; [congruence|]. split; [congruence|]. intros Hoff _.
+        destruct (R1 eq_refl) as (_ & Hq & _ & _ & Hnf & Hna & _).
+        rewrite Hq, Nat.sub_0_r, firstn_all in IH2. apply IH2; [exact Hoff|lia|lia].
+    - intros cc. split; simpl; [lia|reflexivity].
+    - intros cc t ts xci r rs Hxci Hex (S1 & S2 & S3) Hrest (L1 & L2).
+      split; simpl.
+      + intros Hc. destruct r; simpl in Hc.
+        * rewrite (L1 Hc). apply andb_false_r.
+        * rewrite (S2 eq_refl). reflexivity.
+        * rewrite (L1 Hc). apply andb_false_r.
+      + intros Hoff Hf Ha. destruct r; simpl in Hf, Ha; try lia.
+        rewrite (S3 Hoff eq_refl). simpl. apply L2; assumption.
+  Qed.
+
+  (* A result without error (and without short circuit) means that every leaf below was
+     processed successfully; a failure means that some leaf below fails; the cancellation
+     error comes out only if the caller did cancel: in particular it never comes out of a
+     top-level call whose context is never cancelled. *)
+  Theorem exec_result_sound t xcin r :
+    exec t xcin r ->
+    (r = RCancelled -> xcin = true) /\
+    (r = RFail -> all_ok t = false) /\
+    (sc_on v = false -> r = ROk -> all_ok t = true).
+  Proof. intros H. apply (proj1 exec_sound_mut t xcin r H). Qed.
+
+  Corollary exec_top_level t r :
+    exec t false r -> r = ROk \/ (r = RFail /\ all_ok t = false).
+  Proof.
+    intros H. destruct (exec_result_sound t false r H) as (H1 & H2 & _).
+    destruct r; [left; reflexivity|right; auto|specialize (H1 eq_refl); discriminate H1].
+  Qed.
+
+  (* ---------------------------------------------------------------- totality *)
+
+  Section seq.
+    Context (N : nat).
+    Notation step := (step N D S v).
+    Notation steps := (steps N D S v).
+    Notation init := (init N v).
+    Notation reachable := (reachable N D S v).
+
+    (* no entry is in flight and none will be handed out any more *)
+    Definition settled (c : cfg) : Prop :=
+      (fd_done c = true \/ q c = 0) /\ busy (wD c) = 0 /\ busy (wS c) = 0.
+
+    Lemma settled_step l c c' :
+      settled c -> step l c c' ->
+      settled c' /\ q c' = q c /\ nfin c' = nfin c /\ nfail c' = nfail c /\ nabort c' = nabort c.
+    Proof.
+      intros (Hf & HbD & HbS) Hs. unfold settled.
+      destruct Hs; try destruct k; simpl in *;
+        try (exfalso; destruct Hf as [Hf|Hf]; [congruence|lia]);
+        try (exfalso; lia);
+        repeat split; auto.
+    Qed.
+
+    Lemma settled_steps c tr c' :
+      settled c -> steps c tr c' ->
+      q c' = q c /\ nfin c' = nfin c /\ nfail c' = nfail c /\ nabort c' = nabort c.
+    Proof.
+      intros Hse Hst. induction Hst as [c|c l c' tr c'' Hs Hst IH]; [auto|].
+      destruct (settled_step _ _ _ Hse Hs) as (Hse' & E1 & E2 & E3 & E4).
+      destruct (IH Hse') as (F1 & F2 & F3 & F4). repeat split; congruence.
+    Qed.
+
+    Lemma internal_step_xc l c c' : step l c c' -> internal l -> xc c' = xc c.
+    Proof.
+      intros Hs Hi. destruct Hs; try reflexivity.
+      exfalso. apply Hi. right. reflexivity.
+    Qed.
+
+    Lemma internal_steps_xc c tr c' : steps c tr c' -> Forall internal tr -> xc c' = xc c.
+    Proof.
+      intros Hst. induction Hst as [c|c l c' tr c'' Hs Hst IH]; intros Hall; [reflexivity|].
+      inversion Hall as [|l0 tr0 Hl Htr]; subst.
+      rewrite (IH Htr). eapply internal_step_xc; [exact Hs|exact Hl].
+    Qed.
+
+    (* a settled reachable state can be completed without changing what happened to entries *)
+    Lemma finish_from c :
+      1 <= D -> reachable c -> settled c ->
+      exists tr c', steps init tr c' /\ final c' /\
+        q c' = q c /\ nfin c' = nfin c /\ nfail c' = nfail c /\ nabort c' = nabort c /\
+        xc c' = xc c.
+    Proof.
+      intros HD Hr Hse. destruct (flat_can_finish N D S v c HD Hr) as (tr2 & c' & Hst & Hf & Hall).
+      destruct Hr as [tr1 Htr1].
+      destruct (settled_steps _ _ _ Hse Hst) as (E1 & E2 & E3 & E4).
+      exists (tr1 ++ tr2), c'. split; [eapply steps_app; [exact Htr1|exact Hst]|].
+      split; [exact Hf|]. repeat split; try assumption.
+      eapply internal_steps_xc; [exact Hst|exact Hall].
+    Qed.
+
+    (* the sequential schedule: one dedicated worker, j entries done, r to go *)
+    Definition seq_state (r j : nat) : cfg :=
+      {| q := r; fd_done := false; closed := false; sp := 1; sp_done := false;
+         wD := {| idle := 1; busy := 0; hold := 0 |};
+         wS := {| idle := 0; busy := 0; hold := 0 |};
+         col := j; col_done := negb (has_collector v); ready := false;
+         cancelled := false; err := None;
+         dropped := 0; nfail := 0; nabort := 0; nfin := j; xc := false; scd := false |}.
+
+    Ltac go1 :=
+      eapply steps_cons;
+      [ solve [econstructor; simpl; try reflexivity; try lia; auto] | simpl ].
+
+    Lemma seq_round r j :
+      j < N -> exists tr, steps (seq_state (1 + r) j) tr (seq_state r (1 + j)).
+    Proof.
+      intros Hj. unfold seq_state. destruct (has_collector v) eqn:Hv; simpl.
+      - exists [L_take Ded; L_finish Ded; L_deliver Ded]. go1. go1. go1. apply steps_nil.
+      - exists [L_take Ded; L_finish Ded]. go1. go1. apply steps_nil.
+    Qed.
+
+    Lemma seq_reach j :
+      1 <= D -> forall r, r + j = N -> 1 <= N -> reachable (seq_state r j).
+    Proof.
+      intros HD. induction j as [|j IH]; intros r Hrj HN.
+      - assert (r = N) by lia. subst r.
+        exists [L_spawn Ded]. unfold seq_state, Sched.init. go1. apply steps_nil.
+      - destruct (IH (1 + r) ltac:(lia) HN) as [tr1 Htr1].
+        destruct (seq_round r j ltac:(lia)) as [tr2 Htr2].
+        exists (tr1 ++ tr2). eapply steps_app; [exact Htr1|exact Htr2].
+    Qed.
+
+    (* all N entries succeed *)
+    Lemma seq_all_ok :
+      1 <= D -> exists tr c, steps init tr c /\ final c /\
+        q c = 0 /\ nfin c = N /\ nfail c = 0 /\ nabort c = 0 /\ xc c = false.
+    Proof.
+      intros HD. destruct N as [|n] eqn:EN.
+      - destruct (finish_from init HD) as (tr & c & H1 & H2 & H3 & H4 & H5 & H6 & H7).
+        + subst. apply reachable_init.
+        + unfold settled. simpl. rewrite EN. auto.
+        + exists tr, c. rewrite EN in *. simpl in *. repeat split; assumption.
+      - rewrite <- EN in *.
+        destruct (finish_from (seq_state 0 N) HD) as (tr & c & H1 & H2 & H3 & H4 & H5 & H6 & H7).
+        + apply seq_reach; [exact HD|lia|lia].
+        + unfold settled. simpl. auto.
+        + exists tr, c. simpl in *. repeat split; assumption.
+    Qed.
+
+    (* the first j entries succeed, the next one fails, r are never handed out *)
+    Lemma seq_fail_at r j :
+      1 <= D -> 1 + r + j = N -> exists tr c, steps init tr c /\ final c /\
+        q c = r /\ nfin c = j /\ nfail c = 1 /\ nabort c = 0 /\ xc c = false.
+    Proof.
+      intros HD Hrj.
+      assert (Hr : reachable (seq_state (1 + r) j)) by (apply seq_reach; [exact HD|lia|lia]).
+      assert (Hx : exists c, steps (seq_state (1 + r) j) [L_take Ded; L_fail Ded] c /\
+                  fd_done c = false /\ cancelled c = true /\ q c = r /\
+                  busy (wD c) = 0 /\ busy (wS c) = 0 /\
+                  nfin c = j /\ nfail c = 1 /\ nabort c = 0 /\ xc c = false).
+      { eexists. split; [unfold seq_state; go1; go1; apply steps_nil|]. simpl. repeat split. }
+      destruct Hx as (c1 & Hst1 & Hfd & Hca & Hq & HbD & HbS & E1 & E2 & E3 & E4).
+      assert (Hr1 : reachable c1).
+      { destruct Hr as [tr0 Htr0]. eexists. eapply steps_app; [exact Htr0|exact Hst1]. }
+      (* the feeder leaves *)
+      assert (Hy : exists l c2, step l c1 c2 /\ settled c2 /\ q c2 = r /\
+                  nfin c2 = j /\ nfail c2 = 1 /\ nabort c2 = 0 /\ xc c2 = false).
+      { destruct r as [|r'].
+        - do 2 eexists. split; [eapply S_feed_close; [exact Hfd|exact Hq]|].
+          unfold settled. simpl. repeat split; auto.
+        - do 2 eexists. split; [eapply S_feed_cancel; [exact Hfd|exact Hq|exact Hca]|].
+          unfold settled. simpl. repeat split; auto. }
+      destruct Hy as (l & c2 & Hs2 & Hse & F0 & F1 & F2 & F3 & F4).
+      assert (Hr2 : reachable c2) by (eapply reachable_step; [exact Hr1|exact Hs2]).
+      destruct (finish_from c2 HD Hr2 Hse) as (tr & c & H1 & H2 & H3 & H4 & H5 & H6 & H7).
+      exists tr, c. repeat split; try assumption; congruence.
+    Qed.
+  End seq.
+
+  Lemma exec_children_app cc l1 r1 l2 r2 :
+    exec_children cc l1 r1 -> exec_children cc l2 r2 -> exec_children cc (l1 ++ l2) (r1 ++ r2).
+  Proof.
+    intros H1 H2. induction H1 as [cc|cc t ts xci r rs Hxci Hex Hrest IH]; simpl; [exact H2|].
+    eapply ec_cons; [exact Hxci|exact Hex|]. apply IH. exact H2.
+  Qed.
+
+  Lemma exec_children_all_ok cc l :
+    Forall (fun t => exec t false ROk) l -> exec_children cc l (repeat ROk (length l)).
+  Proof.
+    intros H. induction H as [|t l Ht Hl IH]; simpl; [constructor|].
+    eapply ec_cons; [|exact Ht|exact IH]. intros Hx. discriminate Hx.
+  Qed.
+
+  Lemma first_failure l :
+    Forall (fun t => exists r, exec t false r) l ->
+    Forall (fun t => exec t false ROk) l \/
+    exists pre t post, l = pre ++ t :: post /\
+      Forall (fun t => exec t false ROk) pre /\ exec t false RFail.
+  Proof.
+    intros H. induction H as [|t l [r Hr] Hl IH]; [left; constructor|].
+    destruct r.
+    - destruct IH as [IH|(pre & t' & post & E & Hpre & Ht')].
+      + left. constructor; assumption.
+      + right. exists (t :: pre), t', post. subst l. split; [reflexivity|].
+        split; [constructor; assumption|exact Ht'].
+    - right. exists [], t, l. split; [reflexivity|]. split; [constructor|exact Hr].
+    - destruct (exec_result_sound _ _ _ Hr) as (Hx & _). specialize (Hx eq_refl). discriminate Hx.
+  Qed.
+
+  (* With one dedicated token per directory, every tree has an execution, whatever the
+     shared pool size, the variant, and whether or not the caller may cancel. *)
+  Theorem exec_total t : 1 <= D -> forall xcin, exists r, exec t xcin r.
+  Proof.
+    intros HD. induction t as [ok|ch IH] using tree_ind'; intros xcin.
+    - eexists. apply exec_leaf.
+    - assert (IH' : Forall (fun t => exists r, exec t false r) ch).
+      { eapply Forall_impl; [|exact IH]. intros t Ht. apply Ht. }
+      destruct (first_failure ch IH') as [Hall|(pre & t & post & E & Hpre & Ht)].
+      + destruct (seq_all_ok (length ch) HD) as (tr & c & H1 & H2 & H3 & H4 & H5 & H6 & H7).
+        eexists. eapply (exec_node D S v ch xcin tr c (repeat ROk (length ch))).
+        * exact H1.
+        * exact H2.
+        * intros _. exact H7.
+        * rewrite H3, Nat.sub_0_r, firstn_all. apply exec_children_all_ok. exact Hall.
+        * rewrite count_repeat_same. congruence.
+        * rewrite count_repeat_other by reflexivity. congruence.
+        * rewrite count_repeat_other by reflexivity. congruence.
+      + assert (Hlen : 1 + length post + length pre = length ch).
+        { subst ch. rewrite app_length. simpl. lia. }
+        destruct (seq_fail_at (length ch) (length post) (length pre) HD Hlen)
+          as (tr & c & H1 & H2 & H3 & H4 & H5 & H6 & H7).
+        eexists.
+        eapply (exec_node D S v ch xcin tr c (repeat ROk (length pre) ++ [RFail])).
+        * exact H1.
+        * exact H2.
+        * intros _. exact H7.
+        * rewrite H3. replace (length ch - length post) with (length pre + 1) by lia.
+          subst ch. rewrite firstn_app_one. apply exec_children_app.
+          -- apply exec_children_all_ok. exact Hpre.
+          -- eapply ec_cons; [|exact Ht|constructor]. intros Hx. discriminate Hx.
+        * rewrite count_app, count_repeat_same. simpl. lia.
+        * rewrite count_app, count_repeat_other by reflexivity. simpl. lia.
+        * rewrite count_app, count_repeat_other by reflexivity. simpl. lia.
+  Qed.
+End tree_proofs.
+
+(* -------------------------------------------------------------------- the model is not vacuous *)
+
+Ltac run1 :=
+  eapply steps_cons;
+  [ solve [econstructor; cbv; try reflexivity; try lia; auto] | cbv ].
+Ltac run := repeat run1; apply steps_nil.
+
+(* two entries, one dedicated token, no shared token: complete successful commit *)
+Example ex_commit_ok :
+  exists c,
+    steps 2 1 0 Commit (init 2 Commit)
+      [L_spawn Ded; L_take Ded; L_finish Ded; L_deliver Ded; L_take Ded; L_finish Ded;
+       L_deliver Ded; L_feed_close; L_exit Ded; L_collected; L_sp_stop] c
+    /\ final c /\ err c = None /\ col c = 2 /\ ready c = true.
+Proof. eexists. split; [run|]. cbv. auto 10. Qed.
+
+(* the first entry fails: the feeder, the collector and the spawn loop leave through ctx.Done() *)
+Example ex_commit_fail :
+  exists c,
+    steps 2 1 0 Commit (init 2 Commit)
+      [L_spawn Ded; L_take Ded; L_fail Ded; L_feed_cancel; L_col_cancel; L_sp_cancel] c
+    /\ final c /\ err c = Some EntryError /\ nfail c = 1 /\ q c = 1 /\ col c = 0.
+Proof. eexists. split; [run|]. cbv. auto 10. Qed.
+
+(* the parent cancels while a worker holds a result: the worker abandons it *)
+Example ex_commit_cancelled :
+  exists c,
+    steps 2 1 0 Commit (init 2 Commit)
+      [L_spawn Ded; L_take Ded; L_finish Ded; L_ext_cancel; L_drop Ded; L_col_cancel;
+       L_feed_cancel; L_sp_cancel] c
+    /\ final c /\ err c = Some ParentCancelled /\ nfail c = 0 /\ dropped c = 1.
+Proof. eexists. split; [run|]. cbv. auto 10. Qed.
+
+(* a cancellation nobody looks at: every select took its other ready case *)
+Example ex_cancel_unobserved :
+  exists c,
+    steps 2 1 0 Commit (init 2 Commit)
+      [L_spawn Ded; L_ext_cancel; L_take Ded; L_finish Ded; L_deliver Ded; L_take Ded;
+       L_finish Ded; L_deliver Ded; L_feed_close; L_exit Ded; L_collected; L_sp_stop] c
+    /\ final c /\ err c = None /\ xc c = true /\ col c = 2.
+Proof. eexists. split; [run|]. cbv. auto 10. Qed.
+
+(* checkout: the spawn loop has no ready channel; it gets the dedicated token back when the
+   only worker has left and starts a second worker, which finds the channel closed *)
+Example ex_checkout_ok :
+  exists c,
+    steps 2 1 0 Checkout (init 2 Checkout)
+      [L_spawn Ded; L_take Ded; L_finish Ded; L_take Ded; L_finish Ded; L_feed_close;
+       L_exit Ded; L_spawn Ded; L_exit Ded; L_sp_stop] c
+    /\ final c /\ err c = None /\ col c = 2.
+Proof. eexists. split; [run|]. cbv. auto 10. Qed.
+
+(* checkout: after a failure the feeder leaves WITHOUT closing the channel; the idle worker
+   leaves through ctx.Done() *)
+Example ex_checkout_fail :
+  exists c,
+    steps 2 2 0 Checkout (init 2 Checkout)
+      [L_spawn Ded; L_spawn Ded; L_take Ded; L_fail Ded; L_feed_cancel; L_exit_cancel Ded;
+       L_sp_stop] c
+    /\ final c /\ err c = Some EntryError /\ closed c = false.
+Proof. eexists. split; [run|]. cbv. auto 10. Qed.
+
+(* status with short circuit: the sentinel is the group error, the caller gets nil *)
+Example ex_status_short_circuit :
+  exists c,
+    steps 2 1 1 (Status true) (init 2 (Status true))
+      [L_spawn Shr; L_take Shr; L_finish Shr; L_short_circuit Shr; L_feed_cancel; L_exit Shr;
+       L_sp_cancel] c
+    /\ final c /\ err c = Some ShortCircuit /\ returned c = None /\ col c = 1.
+Proof. eexists. split; [run|]. cbv. auto 10. Qed.
+
+Print Assumptions flat_inv_reachable.
+Print Assumptions flat_terminates.
+Print Assumptions flat_progress.
+Print Assumptions flat_can_finish.
+Print Assumptions flat_stuck_without_dedicated.
+Print Assumptions flat_joined.
+Print Assumptions flat_tokens.
+Print Assumptions flat_result.
+Print Assumptions flat_returned_nil.
+Print Assumptions exec_total.
+Print Assumptions exec_result_sound.
+Print Assumptions exec_top_level.
